@@ -25,7 +25,21 @@ func vpAmino(c0, c1, c2 byte) byte {
 // concatenation law; dst prefix untouched.
 func VP_C14_Codons() {
 	nc := vpCase("codons")
-	src := vpBytes("src", 3*nc)
+	var src []byte
+	if nc >= 100 {
+		// a long sequence: symbolic bases at both ends and around every
+		// multiple of 256 (block sizes 256, 512, 1024, ...), a fixed filler
+		// elsewhere
+		src = make([]byte, 3*nc)
+		for i := range src {
+			src[i] = "ACGTTGCA"[i&7]
+			if i < 3 || i >= len(src)-3 || i%256 >= 253 || i%256 < 3 {
+				src[i] = vpByte("src[" + vpNum(i) + "]")
+			}
+		}
+	} else {
+		src = vpBytes("src", 3*nc)
+	}
 	for _, b := range src {
 		vpAssume(vpIsACGT(b))
 	}
@@ -76,7 +90,18 @@ func VP_C14_Panics() {
 // equals Translate(seq[i:] cut to a multiple of 3).
 func VP_C14_Frames() {
 	n := vpCase("n")
-	seq := vpBytes("seq", n)
+	var seq []byte
+	if n >= 300 {
+		seq = make([]byte, n)
+		for i := range seq {
+			seq[i] = "ACGTTGCA"[i&7]
+			if i < 3 || i >= n-3 || i%256 >= 253 || i%256 < 3 {
+				seq[i] = vpByte("seq[" + vpNum(i) + "]")
+			}
+		}
+	} else {
+		seq = vpBytes("seq", n)
+	}
 	for _, b := range seq {
 		vpAssume(vpIsACGT(b))
 	}
